@@ -715,7 +715,7 @@ func TestConfig(t *testing.T) {
 			}
 			r.rejectCases(sec, raw0)
 			r.pathCases(sec, pathSets, save0, full)
-			r.historyCases(sec, raw0, save0, kept)
+			r.historyCases(sec, raw0, save0, kept, full)
 		}
 	}
 	if only == "" {
@@ -1069,7 +1069,7 @@ func (r *run) subsetCases(full tree, save0s map[string]tree, injs map[string][]*
 
 // historyCases: by now hundreds of different files went through this component in this process. The result
 // of Default() and of loading a file must not depend on that history, nor on what an object loaded before.
-func (r *run) historyCases(sec section, raw0 []byte, save0 tree, kept []caseInfo) {
+func (r *run) historyCases(sec section, raw0 []byte, save0 tree, kept []caseInfo, full tree) {
 	// settings whose default differs from one Default() to the next (the generated cluster secret)
 	volatile := [][]string{}
 	d := func() tree {
@@ -1174,6 +1174,55 @@ func (r *run) historyCases(sec section, raw0 []byte, save0 tree, kept []caseInfo
 	{
 		l := loadAlone(sec, rawA)
 		emit("load-twice", l.outcome, la.saved != nil && l.saved != nil && canon(l.saved) == canon(la.saved), diff(l.saved, la.saved)+l.err)
+	}
+	// 5./6. on ONE config.Manager: a file that lacks this section (the Manager generates the defaults), the same
+	// file with the section set to A, and the file without it again: what the Manager holds and saves for the
+	// section is what a fresh Manager gets from the last file alone. (The cluster section is not defaulted by the
+	// Manager when it is missing, so it has no such sequence.)
+	if sec.typ != config.Cluster && full != nil {
+		without := clone(full).(tree)
+		if parent, ok := get(without, sectionPath(sec)[:1]); ok {
+			if pt, ok := parent.(tree); ok {
+				delete(pt, sec.name)
+			}
+		}
+		withA := clone(full).(tree)
+		set(withA, sectionPath(sec), a, false)
+		bw, _ := json.Marshal(without)
+		ba, _ := json.Marshal(withA)
+		sectionOf := func(m *config.Manager) tree {
+			var raw []byte
+			if err, p := guard(func() error { var e error; raw, e = m.ToJSON(); return e }); err != nil || p {
+				return nil
+			}
+			t, err := parse(raw)
+			if err != nil {
+				return nil
+			}
+			st, _ := get(t, sectionPath(sec))
+			out, _ := st.(tree)
+			return out
+		}
+		play := func(files ...[]byte) (tree, string) {
+			m, _ := newManager()
+			defer m.Shutdown()
+			var err error
+			var p bool
+			for _, f := range files {
+				f := f
+				err, p = guard(func() error { return m.LoadJSON(f) })
+			}
+			return sectionOf(m), outcomeOf(err, p)
+		}
+		ref, refOutcome := play(bw)
+		if refOutcome == "accepted" && ref != nil {
+			if _, o := play(ba); o == "accepted" {
+				t, o := play(bw, ba, bw)
+				emit("manager-section-missing-set-missing", o, t != nil && strip(t) == strip(ref), diff(t, ref))
+				t, o = play(ba, bw)
+				emit("manager-section-set-missing", o, t != nil && strip(t) == strip(ref), diff(t, ref))
+			}
+		}
 	}
 }
 
